@@ -68,6 +68,13 @@ def call_method(ex, st, recv, name, args, kwargs, node):
     if isinstance(recv, VList):
         yield from list_method(ex, st, recv, name, args, kwargs, node)
         return
+    if type(recv).__name__ == "VPList":
+        if name == "append" and len(args) == 1 and isinstance(args[0], VStr):
+            ex.check_frame(st, recv, node)
+            recv.chunks = recv.chunks + [("e", args[0])]
+            yield NONE, st
+            return
+        raise Unsupported(f"split-list.{name}")
     if isinstance(recv, VObj) and recv.cls == "Match" and name in ("start", "group") and not args:
         yield recv.fields["_" + name], st
         return
@@ -464,6 +471,10 @@ def m_split(ex, st, s, args, kwargs, node):
     sep = args[0]
     if sep.conc is None or len(sep.conc) != 1 or len(args) > 1:
         raise Unsupported("split with this separator")
+    if getattr(ex, "split_model", None) == "plist":
+        from . import plist
+        yield plist.VPList([("s", s)], sep.conc, fresh=True), st
+        return
     if s.conc is not None:
         yield as_seglist(st.ctx, VList([lit(x) for x in s.conc.split(sep.conc)])), st
         return
@@ -478,6 +489,10 @@ def m_split(ex, st, s, args, kwargs, node):
 
 def m_join(ex, st, s, args, kwargs, node):
     seq = args[0]
+    from . import plist
+    if isinstance(seq, plist.VPList):
+        yield from plist.join(ex, st, seq, s, node)
+        return
     if isinstance(seq, VSList):
         if s.conc is None:
             raise Unsupported("join with symbolic separator")
@@ -518,6 +533,9 @@ def b_len(ex, st, args, kwargs, node):
         yield VInt(v.view.len()), st
     elif isinstance(v, VDict):
         yield VInt(len(v.d)), st
+    elif type(v).__name__ == "VPList":
+        from . import plist
+        yield VInt(plist.length(st.ctx, v)), st
     else:
         raise Unsupported(f"len of {v!r}")
 
@@ -703,6 +721,9 @@ def b_tuple(ex, st, args, kwargs, node):
     if isinstance(v, (VTuple, VList)):
         yield VTuple(v.items), st
         return
+    if type(v).__name__ == "VPList":
+        yield v.copy(fresh=True), st
+        return
     raise Unsupported("tuple(symbolic)")
 
 
@@ -713,6 +734,9 @@ def b_list(ex, st, args, kwargs, node):
     v = args[0]
     if isinstance(v, (VTuple, VList)):
         yield VList(list(v.items), fresh=True), st
+        return
+    if type(v).__name__ == "VPList":
+        yield v.copy(fresh=True), st
         return
     raise Unsupported("list(symbolic)")
 
@@ -1103,6 +1127,11 @@ def quoter_contract(name):
             st.ctx.addq(f"alphabet({name})", A, lambda k: z3.Implies(z3.And(lo <= k, k < hi), V.in_set(A[k], codes)))
             st.ctx.add(z3.Implies(s.len() == 0, r.len() == 0))
             r.tags["quoted_by"] = (name, s)
+            if spec_quote.slash_stable_name(name):
+                # no unit contains '/' unless the consumed character is '/'
+                # (contracts.spec_quote.lemma_no_new_slash, proved for these quoters)
+                st.ctx.add(z3.Implies(V.find(st.ctx, s, lit("/")) < 0, V.find(st.ctx, r, lit("/")) < 0))
+                ex.lemmas_used.add("contracts.spec_quote:lemma_no_new_slash")
             m[key] = r
             ex.assumed_contracts.add(f"yarl._quoters:{name} (result alphabet = RFC 3986 literal set of the component + '%' + upper-case hex)")
         yield r, st
@@ -1157,6 +1186,8 @@ def install(ex):
             lambda ex, st, args, kwargs, node: iter([(lit(_sq.quoter_name(args[0].obj)), st)]))
         add(_sq.requoter_of, "spec.requoter_of",
             lambda ex, st, args, kwargs, node: iter([(VConst(_sq.requoter_of(args[0].obj)), st)]))
+        add(_sq.is_slash_stable, "spec.is_slash_stable",
+            lambda ex, st, args, kwargs, node: iter([(VBool(_sq.is_slash_stable(args[0].obj)), st)]))
         add(_sq.skippable_text, "spec.skippable_text",
             lambda ex, st, args, kwargs, node: iter([(ex.wrap(_sq.skippable_text(args[0].obj)), st)]))
         add(_sq.component_alphabet, "spec.component_alphabet",
